@@ -1,5 +1,17 @@
 package main
 
+import (
+	"fmt"
+	"go/ast"
+	"go/token"
+	"os"
+	"path/filepath"
+	"regexp"
+	"sort"
+	"strconv"
+	"strings"
+)
+
 // C11 — guards of the small server-reachable parsers that the Coq models in coq/C11 are built from: every bounds check
 // in front of a slice expression / allocation is a generated definition, so a removed or weakened check changes the model.
 func init() {
@@ -73,5 +85,1591 @@ func init() {
 		for _, fn := range []string{"getSigBlock", "verify", "unmarshalR", "unmarshal"} {
 			fingerprint(ap, "", fn)
 		}
+		c11Text(o)
 	}
+}
+
+// =====================================================================================================================
+// Site analysis: for every index expression x[i], slice expression x[a:b] and single-value type assertion x.(T) of a
+// function, decide with a light forward analysis of the AST whether a dominating condition implies that it cannot panic.
+// Facts are relations between printed expressions ("A<B", "A<=B"), constant lower bounds (expr >= k), results of the
+// strings/bytes Index family (j = Index(x, sep): j >= -1, and j >= 0 -> j+len(sep) <= len(x)), range indices and
+// aliases n := len(x).  Facts are killed when a variable they mention is assigned.  The analysis is deliberately simple:
+// what it cannot prove is listed as UNGUARDED, and the Coq side states that the list equals a reviewed list.
+type c11Site struct {
+	fn, kind, text string
+	guarded        bool
+}
+
+type c11Idx struct {
+	x string
+	s int64
+}
+
+type c11Facts struct {
+	rel   map[string]bool   // "A<B" / "A<=B"
+	lb    map[string]int64  // expr >= k
+	idx   map[string]c11Idx // j = Index*(x, sep)
+	rng   map[string]string // i from `for i := range x`
+	alias map[string]string // n -> "len(x)"
+}
+
+func newC11Facts() *c11Facts {
+	return &c11Facts{rel: map[string]bool{}, lb: map[string]int64{}, idx: map[string]c11Idx{}, rng: map[string]string{}, alias: map[string]string{}}
+}
+func (f *c11Facts) clone() *c11Facts {
+	g := newC11Facts()
+	for k, v := range f.rel {
+		g.rel[k] = v
+	}
+	for k, v := range f.lb {
+		g.lb[k] = v
+	}
+	for k, v := range f.idx {
+		g.idx[k] = v
+	}
+	for k, v := range f.rng {
+		g.rng[k] = v
+	}
+	for k, v := range f.alias {
+		g.alias[k] = v
+	}
+	return g
+}
+
+var c11IdentRe = regexp.MustCompile(`[A-Za-z_][A-Za-z0-9_]*`)
+
+func c11Mentions(expr string, names map[string]bool) bool {
+	for _, id := range c11IdentRe.FindAllString(expr, -1) {
+		if names[id] {
+			return true
+		}
+	}
+	return false
+}
+
+func (f *c11Facts) kill(names map[string]bool) {
+	if len(names) == 0 {
+		return
+	}
+	for k := range f.rel {
+		if c11Mentions(k, names) {
+			delete(f.rel, k)
+		}
+	}
+	for k := range f.lb {
+		if c11Mentions(k, names) {
+			delete(f.lb, k)
+		}
+	}
+	for k, v := range f.idx {
+		if c11Mentions(k, names) || c11Mentions(v.x, names) {
+			delete(f.idx, k)
+		}
+	}
+	for k, v := range f.rng {
+		if c11Mentions(k, names) || c11Mentions(v, names) {
+			delete(f.rng, k)
+		}
+	}
+	for k, v := range f.alias {
+		if c11Mentions(k, names) || c11Mentions(v, names) {
+			delete(f.alias, k)
+		}
+	}
+}
+func (f *c11Facts) setLB(e string, k int64) {
+	if old, ok := f.lb[e]; !ok || k > old {
+		f.lb[e] = k
+	}
+}
+
+type c11An struct {
+	p      *pkgInfo
+	fn     string
+	sites  []c11Site
+	maps   map[string]bool // identifiers / field names known to be maps
+	okAsrt map[*ast.TypeAssertExpr]bool
+}
+
+var c11Conv = map[string]bool{"int": true, "int64": true, "int32": true, "uint": true, "uint32": true, "uint64": true, "uint16": true, "uint8": true, "byte": true}
+
+func (a *c11An) norm(f *c11Facts, e ast.Expr) string {
+	switch x := e.(type) {
+	case *ast.ParenExpr:
+		return a.norm(f, x.X)
+	case *ast.CallExpr:
+		if id, ok := x.Fun.(*ast.Ident); ok && c11Conv[id.Name] && len(x.Args) == 1 {
+			return a.norm(f, x.Args[0])
+		}
+		if id, ok := x.Fun.(*ast.Ident); ok && id.Name == "len" && len(x.Args) == 1 {
+			return "len(" + a.norm(f, x.Args[0]) + ")"
+		}
+	case *ast.Ident:
+		if f != nil {
+			if v, ok := f.alias[x.Name]; ok {
+				return v
+			}
+		}
+		return x.Name
+	case *ast.BinaryExpr:
+		if x.Op == token.ADD || x.Op == token.SUB || x.Op == token.MUL {
+			return a.norm(f, x.X) + x.Op.String() + a.norm(f, x.Y)
+		}
+	}
+	return strings.Join(strings.Fields(printNode(a.p.fset, e)), "")
+}
+
+func c11Const(e ast.Expr) (int64, bool) {
+	switch x := e.(type) {
+	case *ast.ParenExpr:
+		return c11Const(x.X)
+	case *ast.BasicLit:
+		if x.Kind == token.INT {
+			v, err := strconv.ParseInt(x.Value, 0, 64)
+			return v, err == nil
+		}
+		if x.Kind == token.CHAR {
+			return 0, false
+		}
+	case *ast.UnaryExpr:
+		if x.Op == token.SUB {
+			v, ok := c11Const(x.X)
+			return -v, ok
+		}
+	case *ast.CallExpr:
+		if id, ok := x.Fun.(*ast.Ident); ok && c11Conv[id.Name] && len(x.Args) == 1 {
+			return c11Const(x.Args[0])
+		}
+	}
+	return 0, false
+}
+
+// length of a string literal / []byte("lit") / 'c' argument; -1 when unknown
+func c11LitLen(e ast.Expr) int64 {
+	switch x := e.(type) {
+	case *ast.BasicLit:
+		if x.Kind == token.STRING {
+			s, err := strconv.Unquote(x.Value)
+			if err == nil {
+				return int64(len(s))
+			}
+		}
+		if x.Kind == token.CHAR {
+			return 1
+		}
+	case *ast.CallExpr:
+		if len(x.Args) == 1 {
+			if at, ok := x.Fun.(*ast.ArrayType); ok && at.Len == nil {
+				return c11LitLen(x.Args[0])
+			}
+		}
+	case *ast.CompositeLit:
+		if at, ok := x.Type.(*ast.ArrayType); ok && at.Len == nil {
+			return int64(len(x.Elts))
+		}
+	}
+	return -1
+}
+
+// E = A+c / A-c decomposition on the AST
+func c11PlusConst(e ast.Expr) (ast.Expr, int64, bool) {
+	if p, ok := e.(*ast.ParenExpr); ok {
+		return c11PlusConst(p.X)
+	}
+	if b, ok := e.(*ast.BinaryExpr); ok && (b.Op == token.ADD || b.Op == token.SUB) {
+		if c, ok := c11Const(b.Y); ok {
+			if b.Op == token.SUB {
+				c = -c
+			}
+			return b.X, c, true
+		}
+		if c, ok := c11Const(b.X); ok && b.Op == token.ADD {
+			return b.Y, c, true
+		}
+	}
+	return nil, 0, false
+}
+
+func (a *c11An) assume(f *c11Facts, c ast.Expr, truth bool) {
+	switch x := c.(type) {
+	case *ast.ParenExpr:
+		a.assume(f, x.X, truth)
+		return
+	case *ast.UnaryExpr:
+		if x.Op == token.NOT {
+			a.assume(f, x.X, !truth)
+		}
+		return
+	case *ast.CallExpr:
+		fn := printNode(a.p.fset, x.Fun)
+		if truth && len(x.Args) == 2 && (fn == "strings.HasPrefix" || fn == "bytes.HasPrefix" || fn == "strings.HasSuffix" || fn == "bytes.HasSuffix") {
+			if n := c11LitLen(x.Args[1]); n >= 0 {
+				f.setLB("len("+a.norm(f, x.Args[0])+")", n)
+			}
+		}
+		return
+	case *ast.BinaryExpr:
+		switch x.Op {
+		case token.LAND:
+			if truth {
+				a.assume(f, x.X, true)
+				a.assume(f, x.Y, true)
+			}
+			return
+		case token.LOR:
+			if !truth {
+				a.assume(f, x.X, false)
+				a.assume(f, x.Y, false)
+			}
+			return
+		}
+		op := x.Op
+		if !truth {
+			switch op {
+			case token.LSS:
+				op = token.GEQ
+			case token.LEQ:
+				op = token.GTR
+			case token.GTR:
+				op = token.LEQ
+			case token.GEQ:
+				op = token.LSS
+			case token.EQL:
+				op = token.NEQ
+			case token.NEQ:
+				op = token.EQL
+			default:
+				return
+			}
+		}
+		L, R := x.X, x.Y
+		// turn everything into L < R / L <= R / L == R / L != R
+		switch op {
+		case token.GTR:
+			L, R, op = R, L, token.LSS
+		case token.GEQ:
+			L, R, op = R, L, token.LEQ
+		}
+		ln, rn := a.norm(f, L), a.norm(f, R)
+		lc, lok := c11Const(L)
+		rc, rok := c11Const(R)
+		// string emptiness
+		if bl, ok := R.(*ast.BasicLit); ok && bl.Kind == token.STRING {
+			s, _ := strconv.Unquote(bl.Value)
+			if (op == token.NEQ && s == "") || (x.Op == token.EQL && !truth && s == "") {
+				f.setLB("len("+ln+")", 1)
+			}
+			if op == token.EQL {
+				f.setLB("len("+ln+")", int64(len(s)))
+			}
+			return
+		}
+		switch op {
+		case token.LSS:
+			if lok && !rok {
+				f.setLB(rn, lc+1)
+			} else if !lok && !rok {
+				f.rel[ln+"<"+rn] = true
+			}
+		case token.LEQ:
+			if lok && !rok {
+				f.setLB(rn, lc)
+			} else if !lok && !rok {
+				f.rel[ln+"<="+rn] = true
+			}
+		case token.EQL:
+			if rok && !lok {
+				f.setLB(ln, rc)
+			} else if lok && !rok {
+				f.setLB(rn, lc)
+			} else if !lok && !rok {
+				f.rel[ln+"<="+rn] = true
+				f.rel[rn+"<="+ln] = true
+			}
+		case token.NEQ:
+			// e != -1 for an Index result, len(x) != 0
+			if rok && !lok {
+				if cur, ok := f.lb[ln]; (ok && cur == rc) || (strings.HasPrefix(ln, "len(") && rc == 0) {
+					f.setLB(ln, rc+1)
+				} else if _, isIdx := f.idx[ln]; isIdx && rc == -1 {
+					f.setLB(ln, 0)
+				}
+			}
+		}
+	}
+}
+
+func (a *c11An) lbOf(f *c11Facts, e string) (int64, bool) {
+	if v, ok := f.lb[e]; ok {
+		return v, true
+	}
+	if strings.HasPrefix(e, "len(") {
+		return 0, true
+	}
+	if _, ok := f.idx[e]; ok {
+		return -1, true
+	}
+	if _, ok := f.rng[e]; ok {
+		return 0, true
+	}
+	return 0, false
+}
+
+func (a *c11An) nonneg(f *c11Facts, e ast.Expr) bool {
+	if c, ok := c11Const(e); ok {
+		return c >= 0
+	}
+	n := a.norm(f, e)
+	if v, ok := a.lbOf(f, n); ok && v >= 0 {
+		return true
+	}
+	if b, c, ok := c11PlusConst(e); ok {
+		if v, ok2 := a.lbOf(f, a.norm(f, b)); ok2 && v+c >= 0 {
+			return true
+		}
+	}
+	return false
+}
+
+// e <= len(X) (strict: e < len(X))
+func (a *c11An) belowLen(f *c11Facts, e ast.Expr, X string, strict bool) bool {
+	L := "len(" + X + ")"
+	if c, ok := c11Const(e); ok {
+		v, _ := a.lbOf(f, L)
+		if strict {
+			return v >= c+1
+		}
+		return v >= c
+	}
+	n := a.norm(f, e)
+	if n == L {
+		return !strict
+	}
+	if f.rel[n+"<"+L] || (!strict && f.rel[n+"<="+L]) {
+		return true
+	}
+	if f.rng[n] == X {
+		return true
+	}
+	if ix, ok := f.idx[n]; ok && ix.x == X && a.nonneg(f, e) {
+		if !strict || ix.s >= 1 {
+			return true
+		}
+	}
+	if b, c, ok := c11PlusConst(e); ok {
+		bn := a.norm(f, b)
+		if bn == L && c < 0 { // len(x)-c
+			v, _ := a.lbOf(f, L)
+			return v >= -c
+		}
+		if ix, ok := f.idx[bn]; ok && ix.x == X && a.nonneg(f, b) {
+			if (strict && c < ix.s) || (!strict && c <= ix.s) {
+				return true
+			}
+		}
+		if c <= 0 && (f.rel[bn+"<"+L] || f.rel[bn+"<="+L] && (!strict || c < 0) || f.rng[bn] == X) {
+			return true
+		}
+		if c == 1 && !strict && (f.rel[bn+"<"+L] || f.rng[bn] == X) {
+			return true
+		}
+	}
+	return false
+}
+
+func (a *c11An) isMap(x ast.Expr) bool {
+	switch v := x.(type) {
+	case *ast.Ident:
+		return a.maps[v.Name]
+	case *ast.SelectorExpr:
+		return a.maps["."+v.Sel.Name] || v.Sel.Name == "HashNames" // x509tools.HashNames: map[crypto.Hash]string of another package
+	case *ast.CallExpr:
+		return false
+	}
+	return false
+}
+
+func (a *c11An) record(kind string, e ast.Expr, guarded bool) {
+	a.sites = append(a.sites, c11Site{fn: a.fn, kind: kind, text: strings.Join(strings.Fields(printNode(a.p.fset, e)), " "), guarded: guarded})
+}
+
+func (a *c11An) siteIndex(f *c11Facts, x *ast.IndexExpr) {
+	if a.isMap(x.X) {
+		return
+	}
+	if bl, ok := x.Index.(*ast.BasicLit); ok && bl.Kind == token.STRING {
+		return
+	}
+	X := a.norm(f, x.X)
+	g := a.belowLen(f, x.Index, X, true) && a.nonneg(f, x.Index)
+	a.record("index", x, g)
+}
+
+func (a *c11An) siteSlice(f *c11Facts, x *ast.SliceExpr) {
+	X := a.norm(f, x.X)
+	g := true
+	switch {
+	case x.Low == nil && x.High == nil:
+	case x.High == nil:
+		g = a.nonneg(f, x.Low) && a.belowLen(f, x.Low, X, false)
+	case x.Low == nil:
+		g = a.nonneg(f, x.High) && a.belowLen(f, x.High, X, false)
+	default:
+		g = a.nonneg(f, x.Low) && a.belowLen(f, x.High, X, false)
+		lc, lok := c11Const(x.Low)
+		hc, hok := c11Const(x.High)
+		ln, hn := a.norm(f, x.Low), a.norm(f, x.High)
+		switch {
+		case lok && hok:
+			g = g && lc <= hc
+		case lok:
+			v, ok := a.lbOf(f, hn)
+			g = g && (lc == 0 && a.nonneg(f, x.High) || ok && v >= lc)
+		default:
+			ordered := ln == hn || f.rel[ln+"<="+hn] || f.rel[ln+"<"+hn]
+			if b, c, ok := c11PlusConst(x.High); ok && a.norm(f, b) == ln && c >= 0 {
+				ordered = true
+			}
+			g = g && ordered
+		}
+	}
+	a.record("slice", x, g)
+}
+
+func (a *c11An) expr(f *c11Facts, e ast.Node) {
+	if e == nil {
+		return
+	}
+	ast.Inspect(e, func(n ast.Node) bool {
+		switch x := n.(type) {
+		case *ast.BinaryExpr:
+			if x.Op == token.LAND || x.Op == token.LOR {
+				a.expr(f, x.X)
+				g := f.clone()
+				a.assume(g, x.X, x.Op == token.LAND)
+				a.expr(g, x.Y)
+				return false
+			}
+		case *ast.FuncLit:
+			a.block(f.clone(), x.Body.List)
+			return false
+		case *ast.IndexExpr:
+			a.siteIndex(f, x)
+		case *ast.SliceExpr:
+			a.siteSlice(f, x)
+		case *ast.TypeAssertExpr:
+			if x.Type != nil && !a.okAsrt[x] {
+				a.record("assert", x, false)
+			}
+		}
+		return true
+	})
+}
+
+func c11Assigned(n ast.Node, into map[string]bool) {
+	if n == nil {
+		return
+	}
+	ast.Inspect(n, func(m ast.Node) bool {
+		switch x := m.(type) {
+		case *ast.AssignStmt:
+			for _, l := range x.Lhs {
+				c11Root(l, into)
+			}
+		case *ast.IncDecStmt:
+			c11Root(x.X, into)
+		case *ast.RangeStmt:
+			if x.Key != nil {
+				c11Root(x.Key, into)
+			}
+			if x.Value != nil {
+				c11Root(x.Value, into)
+			}
+		case *ast.DeclStmt:
+			if gd, ok := x.Decl.(*ast.GenDecl); ok {
+				for _, sp := range gd.Specs {
+					if vs, ok := sp.(*ast.ValueSpec); ok {
+						for _, nm := range vs.Names {
+							into[nm.Name] = true
+						}
+					}
+				}
+			}
+		case *ast.UnaryExpr:
+			if x.Op == token.AND { // &v handed to a callee that may write it
+				c11Root(x.X, into)
+			}
+		}
+		return true
+	})
+}
+func c11Root(e ast.Expr, into map[string]bool) {
+	switch x := e.(type) {
+	case *ast.Ident:
+		into[x.Name] = true
+	case *ast.SelectorExpr:
+		into[x.Sel.Name] = true
+		c11Root(x.X, into)
+	case *ast.IndexExpr:
+		c11Root(x.X, into)
+	case *ast.StarExpr:
+		c11Root(x.X, into)
+	case *ast.ParenExpr:
+		c11Root(x.X, into)
+	}
+}
+
+func c11Terminates(list []ast.Stmt) bool {
+	if len(list) == 0 {
+		return false
+	}
+	switch x := list[len(list)-1].(type) {
+	case *ast.ReturnStmt:
+		return true
+	case *ast.BranchStmt:
+		return x.Tok == token.CONTINUE || x.Tok == token.BREAK || x.Tok == token.GOTO
+	case *ast.ExprStmt:
+		if ce, ok := x.X.(*ast.CallExpr); ok {
+			if id, ok := ce.Fun.(*ast.Ident); ok && id.Name == "panic" {
+				return true
+			}
+		}
+	case *ast.BlockStmt:
+		return c11Terminates(x.List)
+	case *ast.IfStmt:
+		if eb, ok := x.Else.(*ast.BlockStmt); ok {
+			return c11Terminates(x.Body.List) && c11Terminates(eb.List)
+		}
+	}
+	return false
+}
+
+var c11IndexFns = map[string]int64{"strings.Index": -2, "bytes.Index": -2, "strings.LastIndex": -2, "bytes.LastIndex": -2,
+	"strings.IndexByte": 1, "bytes.IndexByte": 1, "strings.IndexRune": 1, "bytes.IndexRune": 1, "strings.IndexAny": 1, "bytes.IndexAny": 1,
+	"strings.LastIndexByte": 1, "bytes.LastIndexByte": 1, "strings.LastIndexAny": 1, "bytes.LastIndexAny": 1}
+
+func (a *c11An) noteMapType(name string, t ast.Expr) {
+	switch x := t.(type) {
+	case *ast.MapType:
+		a.maps[name] = true
+	case *ast.SelectorExpr:
+		s := printNode(a.p.fset, x)
+		if s == "http.Header" || s == "url.Values" || s == "textproto.MIMEHeader" {
+			a.maps[name] = true
+		}
+	case *ast.Ident:
+		if a.maps["type:"+x.Name] {
+			a.maps[name] = true
+		}
+	case *ast.StarExpr:
+	}
+}
+
+func (a *c11An) assign(f *c11Facts, x *ast.AssignStmt) {
+	if len(x.Lhs) == 2 && len(x.Rhs) == 1 {
+		if ta, ok := x.Rhs[0].(*ast.TypeAssertExpr); ok {
+			a.okAsrt[ta] = true
+		}
+	}
+	for _, r := range x.Rhs {
+		a.expr(f, r)
+	}
+	for _, l := range x.Lhs {
+		if _, ok := l.(*ast.Ident); !ok {
+			a.expr(f, l)
+		}
+	}
+	names := map[string]bool{}
+	for _, l := range x.Lhs {
+		c11Root(l, names)
+	}
+	selfRef := false
+	if len(x.Lhs) == 1 && len(x.Rhs) == 1 {
+		if id, ok := x.Lhs[0].(*ast.Ident); ok {
+			selfRef = c11Mentions(printNode(a.p.fset, x.Rhs[0]), map[string]bool{id.Name: true})
+		}
+	}
+	f.kill(names)
+	if len(x.Lhs) != len(x.Rhs) {
+		return
+	}
+	for i, l := range x.Lhs {
+		id, ok := l.(*ast.Ident)
+		if !ok || id.Name == "_" || selfRef {
+			continue
+		}
+		switch r := x.Rhs[i].(type) {
+		case *ast.CallExpr:
+			fn := printNode(a.p.fset, r.Fun)
+			if s, ok := c11IndexFns[fn]; ok && len(r.Args) == 2 {
+				if s == -2 {
+					s = c11LitLen(r.Args[1])
+					if s < 0 {
+						s = 0
+					}
+				}
+				f.idx[id.Name] = c11Idx{x: a.norm(f, r.Args[0]), s: s}
+			}
+			if fn == "len" && len(r.Args) == 1 {
+				f.alias[id.Name] = "len(" + a.norm(f, r.Args[0]) + ")"
+			}
+			if fn == "make" && len(r.Args) >= 2 {
+				a.noteMapType(id.Name, r.Args[0])
+				if c, ok := c11Const(r.Args[1]); ok {
+					f.setLB("len("+id.Name+")", c)
+				} else if _, isArr := r.Args[0].(*ast.ArrayType); isArr {
+					f.rel[a.norm(f, r.Args[1])+"<=len("+id.Name+")"] = true
+				}
+			}
+			if fn == "make" && len(r.Args) == 1 {
+				a.noteMapType(id.Name, r.Args[0])
+			}
+		case *ast.CompositeLit:
+			if r.Type != nil {
+				a.noteMapType(id.Name, r.Type)
+			}
+		case *ast.BasicLit:
+			if c, ok := c11Const(r); ok {
+				f.setLB(id.Name, c)
+			}
+		}
+	}
+}
+
+func (a *c11An) block(f *c11Facts, list []ast.Stmt) {
+	for _, s := range list {
+		a.stmt(f, s)
+	}
+}
+
+func (a *c11An) stmt(f *c11Facts, s ast.Stmt) {
+	switch x := s.(type) {
+	case nil:
+	case *ast.BlockStmt:
+		a.block(f, x.List)
+	case *ast.LabeledStmt:
+		a.stmt(f, x.Stmt)
+	case *ast.AssignStmt:
+		a.assign(f, x)
+	case *ast.IncDecStmt:
+		a.expr(f, x.X)
+		nm := map[string]bool{}
+		c11Root(x.X, nm)
+		n := a.norm(f, x.X)
+		old, had := f.lb[n]
+		f.kill(nm)
+		if had && x.Tok == token.INC {
+			f.lb[n] = old
+		}
+	case *ast.DeclStmt:
+		if gd, ok := x.Decl.(*ast.GenDecl); ok {
+			for _, sp := range gd.Specs {
+				vs, ok := sp.(*ast.ValueSpec)
+				if !ok {
+					continue
+				}
+				if len(vs.Names) == 2 && len(vs.Values) == 1 {
+					if ta, ok := vs.Values[0].(*ast.TypeAssertExpr); ok {
+						a.okAsrt[ta] = true
+					}
+				}
+				for _, v := range vs.Values {
+					a.expr(f, v)
+				}
+				nm := map[string]bool{}
+				for _, id := range vs.Names {
+					nm[id.Name] = true
+				}
+				f.kill(nm)
+				for _, id := range vs.Names {
+					if vs.Type != nil {
+						a.noteMapType(id.Name, vs.Type)
+						if at, ok := vs.Type.(*ast.ArrayType); ok && at.Len != nil {
+							if c, ok := c11Const(at.Len); ok {
+								f.setLB("len("+id.Name+")", c)
+							}
+						}
+					}
+				}
+			}
+		}
+	case *ast.ExprStmt:
+		a.expr(f, x.X)
+		nm := map[string]bool{}
+		c11Assigned(x, nm)
+		f.kill(nm)
+	case *ast.ReturnStmt:
+		for _, r := range x.Results {
+			a.expr(f, r)
+		}
+	case *ast.GoStmt:
+		if fl, ok := x.Call.Fun.(*ast.FuncLit); ok {
+			for _, arg := range x.Call.Args {
+				a.expr(f, arg)
+			}
+			a.block(newC11Facts(), fl.Body.List)
+		} else {
+			a.expr(f, x.Call)
+		}
+	case *ast.DeferStmt:
+		a.expr(f, x.Call)
+	case *ast.SendStmt:
+		a.expr(f, x.Chan)
+		a.expr(f, x.Value)
+	case *ast.IfStmt:
+		if x.Init != nil {
+			a.stmt(f, x.Init)
+		}
+		a.expr(f, x.Cond)
+		ft := f.clone()
+		a.assume(ft, x.Cond, true)
+		a.block(ft, x.Body.List)
+		fe := f.clone()
+		a.assume(fe, x.Cond, false)
+		var elseList []ast.Stmt
+		switch e := x.Else.(type) {
+		case *ast.BlockStmt:
+			elseList = e.List
+			a.block(fe, e.List)
+		case *ast.IfStmt:
+			elseList = []ast.Stmt{e}
+			a.stmt(fe, e)
+		}
+		thenT, elseT := c11Terminates(x.Body.List), x.Else != nil && c11Terminates(elseList)
+		nm := map[string]bool{}
+		switch {
+		case thenT && !elseT:
+			if x.Else != nil {
+				c11Assigned(x.Else, nm)
+			}
+			f.kill(nm)
+			a.assume(f, x.Cond, false)
+			if x.Else != nil { // facts established inside the else branch survive
+				for k, v := range fe.lb {
+					f.setLB(k, v)
+				}
+			}
+		case elseT && !thenT:
+			c11Assigned(x.Body, nm)
+			f.kill(nm)
+			a.assume(f, x.Cond, true)
+		default:
+			c11Assigned(x.Body, nm)
+			if x.Else != nil {
+				c11Assigned(x.Else, nm)
+			}
+			f.kill(nm)
+		}
+	case *ast.ForStmt:
+		if x.Init != nil {
+			a.stmt(f, x.Init)
+		}
+		nm := map[string]bool{}
+		c11Assigned(x.Body, nm)
+		var ctr string
+		var ctrLB int64
+		if x.Post != nil {
+			c11Assigned(x.Post, nm)
+			// loop counter: i := c; ...; i++ / i += k with no other assignment to i
+			if as, ok := x.Init.(*ast.AssignStmt); ok && len(as.Lhs) == 1 && len(as.Rhs) == 1 {
+				if id, ok := as.Lhs[0].(*ast.Ident); ok {
+					if c, ok := c11Const(as.Rhs[0]); ok {
+						inc := false
+						switch p := x.Post.(type) {
+						case *ast.IncDecStmt:
+							inc = p.Tok == token.INC && printNode(a.p.fset, p.X) == id.Name
+						case *ast.AssignStmt:
+							if p.Tok == token.ADD_ASSIGN && len(p.Lhs) == 1 && printNode(a.p.fset, p.Lhs[0]) == id.Name {
+								k, ok := c11Const(p.Rhs[0])
+								inc = ok && k >= 0
+							}
+						}
+						body := map[string]bool{}
+						c11Assigned(x.Body, body)
+						if inc && !body[id.Name] {
+							ctr, ctrLB = id.Name, c
+						}
+					}
+				}
+			}
+		}
+		f.kill(nm)
+		if ctr != "" {
+			f.setLB(ctr, ctrLB)
+		}
+		fb := f.clone()
+		if x.Cond != nil {
+			a.expr(f, x.Cond)
+			a.assume(fb, x.Cond, true)
+		}
+		a.block(fb, x.Body.List)
+		if x.Post != nil {
+			a.stmt(fb, x.Post)
+		}
+	case *ast.RangeStmt:
+		a.expr(f, x.X)
+		nm := map[string]bool{}
+		c11Assigned(x.Body, nm)
+		if x.Key != nil {
+			c11Root(x.Key, nm)
+		}
+		if x.Value != nil {
+			c11Root(x.Value, nm)
+		}
+		f.kill(nm)
+		fb := f.clone()
+		if id, ok := x.Key.(*ast.Ident); ok && id.Name != "_" {
+			X := a.norm(f, x.X)
+			body := map[string]bool{}
+			c11Assigned(x.Body, body)
+			if !c11Mentions(X, body) && !body[id.Name] && !a.isMap(x.X) {
+				fb.rng[id.Name] = X
+			}
+		}
+		a.block(fb, x.Body.List)
+	case *ast.SwitchStmt:
+		if x.Init != nil {
+			a.stmt(f, x.Init)
+		}
+		if x.Tag != nil {
+			a.expr(f, x.Tag)
+		}
+		var prev []ast.Expr
+		for _, c := range x.Body.List {
+			cc := c.(*ast.CaseClause)
+			fc := f.clone()
+			if x.Tag == nil {
+				for _, p := range prev {
+					a.assume(fc, p, false)
+				}
+			}
+			for _, e := range cc.List {
+				a.expr(fc, e)
+			}
+			if x.Tag == nil && len(cc.List) == 1 {
+				a.assume(fc, cc.List[0], true)
+			}
+			if x.Tag == nil {
+				prev = append(prev, cc.List...)
+			}
+			a.block(fc, cc.Body)
+		}
+		nm := map[string]bool{}
+		c11Assigned(x.Body, nm)
+		f.kill(nm)
+	case *ast.TypeSwitchStmt:
+		if x.Init != nil {
+			a.stmt(f, x.Init)
+		}
+		// the guard x.(type) is not a panicking assertion
+		for _, c := range x.Body.List {
+			a.block(f.clone(), c.(*ast.CaseClause).Body)
+		}
+		nm := map[string]bool{}
+		c11Assigned(x.Body, nm)
+		f.kill(nm)
+	case *ast.SelectStmt:
+		for _, c := range x.Body.List {
+			cc := c.(*ast.CommClause)
+			fc := f.clone()
+			if cc.Comm != nil {
+				a.stmt(fc, cc.Comm)
+			}
+			a.block(fc, cc.Body)
+		}
+		nm := map[string]bool{}
+		c11Assigned(x.Body, nm)
+		f.kill(nm)
+	case *ast.BranchStmt, *ast.EmptyStmt:
+	default:
+		a.expr(f, s)
+	}
+}
+
+// package-level map knowledge: struct fields of map type (by field name, ".Name"), named map types ("type:Name")
+func c11PkgMaps(p *pkgInfo) map[string]bool {
+	m := map[string]bool{}
+	for pass := 0; pass < 2; pass++ {
+		for _, f := range p.files {
+			for _, d := range f.Decls {
+				gd, ok := d.(*ast.GenDecl)
+				if !ok {
+					continue
+				}
+				for _, sp := range gd.Specs {
+					switch ts := sp.(type) {
+					case *ast.TypeSpec:
+						switch t := ts.Type.(type) {
+						case *ast.MapType:
+							m["type:"+ts.Name.Name] = true
+						case *ast.StructType:
+							for _, fl := range t.Fields.List {
+								isMap := false
+								switch ft := fl.Type.(type) {
+								case *ast.MapType:
+									isMap = true
+								case *ast.SelectorExpr:
+									s := printNode(p.fset, ft)
+									isMap = s == "http.Header" || s == "url.Values"
+								case *ast.Ident:
+									isMap = m["type:"+ft.Name]
+								}
+								if isMap {
+									for _, nm := range fl.Names {
+										m["."+nm.Name] = true
+									}
+								}
+							}
+						}
+					case *ast.ValueSpec:
+						for _, nm := range ts.Names {
+							if _, ok := ts.Type.(*ast.MapType); ok {
+								m[nm.Name] = true
+							}
+							for _, v := range ts.Values {
+								if cl, ok := v.(*ast.CompositeLit); ok {
+									if _, ok := cl.Type.(*ast.MapType); ok {
+										m[nm.Name] = true
+									}
+								}
+							}
+						}
+					}
+				}
+			}
+		}
+	}
+	return m
+}
+
+func c11FuncName(fd *ast.FuncDecl) string {
+	if fd.Recv != nil && len(fd.Recv.List) == 1 {
+		t := fd.Recv.List[0].Type
+		if s, ok := t.(*ast.StarExpr); ok {
+			t = s.X
+		}
+		if id, ok := t.(*ast.Ident); ok {
+			return id.Name + "." + fd.Name.Name
+		}
+	}
+	return fd.Name.Name
+}
+
+// analyse every function declared in the given files of a package (nil = all files); source order
+func c11Analyse(dir string, files []string) []c11Site {
+	p := loadPkg(dir)
+	pm := c11PkgMaps(p)
+	var names []string
+	for n := range p.files {
+		if files == nil {
+			names = append(names, n)
+		} else {
+			for _, w := range files {
+				if w == n {
+					names = append(names, n)
+				}
+			}
+		}
+	}
+	sort.Strings(names)
+	if files != nil && len(names) != len(files) {
+		broken = append(broken, fmt.Sprintf("C11 site analysis: files %v of %s not all present (%v)", files, dir, names))
+	}
+	var all []c11Site
+	for _, n := range names {
+		for _, d := range p.files[n].Decls {
+			fd, ok := d.(*ast.FuncDecl)
+			if !ok || fd.Body == nil {
+				continue
+			}
+			a := &c11An{p: p, fn: c11FuncName(fd), maps: map[string]bool{}, okAsrt: map[*ast.TypeAssertExpr]bool{}}
+			for k, v := range pm {
+				a.maps[k] = v
+			}
+			f := newC11Facts()
+			if fd.Type.Params != nil {
+				for _, fl := range fd.Type.Params.List {
+					for _, nm := range fl.Names {
+						a.noteMapType(nm.Name, fl.Type)
+						if at, ok := fl.Type.(*ast.ArrayType); ok && at.Len != nil {
+							if c, ok := c11Const(at.Len); ok {
+								f.setLB("len("+nm.Name+")", c)
+							}
+						}
+					}
+				}
+			}
+			a.block(f, fd.Body.List)
+			all = append(all, a.sites...)
+		}
+	}
+	return all
+}
+
+func c11CoqStr(s string) string { return "\"" + strings.ReplaceAll(s, "\"", "\"\"") + "\"" }
+
+func (o *out) c11Unguarded(coqName, dir string, files []string) {
+	sites := c11Analyse(dir, files)
+	var items []string
+	total := 0
+	for _, s := range sites {
+		total++
+		if !s.guarded {
+			items = append(items, "  "+c11CoqStr(s.fn+": "+s.kind+" "+s.text))
+		}
+	}
+	o.f("(* %s %v: %d index / slice / assertion sites, %d not dominated by a bounds / ok check *)\n", dir, files, total, len(items))
+	o.f("Definition %s : list String.string := [\n%s]%%string.\n", coqName, strings.Join(items, ";\n"))
+}
+
+// the complete site table of one function: (site, guarded)
+func (o *out) c11SiteTable(coqName, dir, fn string) {
+	sites := c11Analyse(dir, nil)
+	var items []string
+	for _, s := range sites {
+		if s.fn == fn {
+			items = append(items, fmt.Sprintf("  (%s, %v)", c11CoqStr(s.kind+" "+s.text), s.guarded))
+		}
+	}
+	if _, fd := findFunc(dir, "", fn); fd == nil && !strings.Contains(fn, ".") {
+		o.brokenDef(coqName, "function "+dir+":"+fn+" not found")
+		return
+	}
+	o.f("Definition %s : list (String.string * bool) := [\n%s]%%string. (* every index / slice / assertion site of %s:%s in source order *)\n", coqName, strings.Join(items, ";\n"), dir, fn)
+}
+
+// =====================================================================================================================
+// Goroutine inventory: every `go` statement of the packages under lib/ and signers/: where it is, which package-local
+// functions the goroutine calls, whether it recovers, whether it drains its pipe after the parser returned, and whether
+// the channel it reports on is buffered.
+type c11Go struct {
+	where   string
+	callees []string
+	recov   bool
+	drains  bool
+	closes  bool // closes the read side of its pipe (CloseWithError / Close on a *PipeReader-like local), which unblocks the writer
+}
+
+func c11Goroutines(roots []string) []c11Go {
+	var dirs []string
+	for _, r := range roots {
+		_ = filepath.Walk(filepath.Join(repo, r), func(path string, info os.FileInfo, err error) error {
+			if err == nil && info.IsDir() {
+				rel, _ := filepath.Rel(repo, path)
+				dirs = append(dirs, rel)
+			}
+			return nil
+		})
+	}
+	sort.Strings(dirs)
+	var res []c11Go
+	for _, d := range dirs {
+		p := loadPkg(d)
+		local := map[string]bool{}
+		var fnames []string
+		for n, f := range p.files {
+			fnames = append(fnames, n)
+			for _, dd := range f.Decls {
+				if fd, ok := dd.(*ast.FuncDecl); ok && fd.Recv == nil {
+					local[fd.Name.Name] = true
+				}
+			}
+		}
+		sort.Strings(fnames)
+		for _, n := range fnames {
+			for _, dd := range p.files[n].Decls {
+				fd, ok := dd.(*ast.FuncDecl)
+				if !ok || fd.Body == nil {
+					continue
+				}
+				ast.Inspect(fd.Body, func(m ast.Node) bool {
+					gs, ok := m.(*ast.GoStmt)
+					if !ok {
+						return true
+					}
+					g := c11Go{where: d + ":" + c11FuncName(fd)}
+					seen := map[string]bool{}
+					ast.Inspect(gs.Call, func(k ast.Node) bool {
+						ce, ok := k.(*ast.CallExpr)
+						if !ok {
+							return true
+						}
+						callee := printNode(p.fset, ce.Fun)
+						if id, ok := ce.Fun.(*ast.Ident); ok {
+							if id.Name == "recover" {
+								g.recov = true
+							}
+							if local[id.Name] && !seen[id.Name] {
+								seen[id.Name] = true
+								g.callees = append(g.callees, id.Name)
+							}
+						}
+						if sel, ok := ce.Fun.(*ast.SelectorExpr); ok && !seen["."+sel.Sel.Name] {
+							// method calls on package-local receivers are listed by method name
+							if _, isIdent := sel.X.(*ast.Ident); isIdent && ast.IsExported(sel.Sel.Name) == false {
+								seen["."+sel.Sel.Name] = true
+								g.callees = append(g.callees, "."+sel.Sel.Name)
+							}
+						}
+						if sel, ok := ce.Fun.(*ast.SelectorExpr); ok && (sel.Sel.Name == "CloseWithError" || sel.Sel.Name == "Close") {
+							if id, ok := sel.X.(*ast.Ident); ok && strings.Contains(strings.ToLower(id.Name), "read") {
+								g.closes = true
+							}
+						}
+						if callee == "io.Copy" && len(ce.Args) == 2 {
+							a0 := printNode(p.fset, ce.Args[0])
+							if a0 == "ioutil.Discard" || a0 == "io.Discard" {
+								g.drains = true
+							}
+						}
+						return true
+					})
+					res = append(res, g)
+					return true
+				})
+			}
+		}
+	}
+	return res
+}
+
+func (o *out) c11GoInventory(coqName string, roots []string) {
+	gs := c11Goroutines(roots)
+	if len(gs) == 0 {
+		o.brokenDef(coqName, "no go statements found under "+strings.Join(roots, ","))
+		return
+	}
+	var items []string
+	for _, g := range gs {
+		var cs []string
+		for _, c := range g.callees {
+			cs = append(cs, c11CoqStr(c))
+		}
+		items = append(items, fmt.Sprintf("  (%s, [%s], %v, %v)", c11CoqStr(g.where), strings.Join(cs, "; "), g.recov, g.drains || g.closes))
+	}
+	o.f("(* go statements under %s: (package:function, package-local callees, recovers, releases its writer: drains the reader with io.Copy(Discard) or closes the read side) *)\n", strings.Join(roots, ", "))
+	o.f("Definition %s : list (String.string * list String.string * bool * bool) := [\n%s]%%string.\n", coqName, strings.Join(items, ";\n"))
+	for _, g := range gs {
+		if len(g.callees) == 1 && (g.callees[0] == "tailClearSign" || g.callees[0] == "headClearSign" || g.callees[0] == "parseControl") {
+			o.f("Definition %s_releases_%s : bool := %v. (* the goroutine of %s around %s drains or closes its reader *)\n", coqName, g.callees[0], g.drains || g.closes, g.where, g.callees[0])
+		}
+	}
+}
+
+// ------------------------------------------------------------------------------------------------ small extractors
+func c11LitBytes(e ast.Expr) ([]byte, bool) {
+	switch x := e.(type) {
+	case *ast.BasicLit:
+		if x.Kind == token.STRING {
+			s, err := strconv.Unquote(x.Value)
+			return []byte(s), err == nil
+		}
+		if x.Kind == token.CHAR {
+			r, _, _, err := strconv.UnquoteChar(x.Value[1:len(x.Value)-1], '\'')
+			if err == nil && r < 256 {
+				return []byte{byte(r)}, true
+			}
+		}
+	case *ast.CallExpr:
+		if at, ok := x.Fun.(*ast.ArrayType); ok && at.Len == nil && len(x.Args) == 1 {
+			return c11LitBytes(x.Args[0])
+		}
+	case *ast.CompositeLit:
+		if at, ok := x.Type.(*ast.ArrayType); ok && at.Len == nil {
+			var b []byte
+			for _, el := range x.Elts {
+				v, ok := c11LitBytes(el)
+				if !ok || len(v) != 1 {
+					return nil, false
+				}
+				b = append(b, v[0])
+			}
+			return b, true
+		}
+	}
+	return nil, false
+}
+
+// the literal (string / []byte / rune) argument #arg of the nth call of `callee` in the function
+func (o *out) c11CallLit(dir, fn, callee string, arg, nth int, coqName string) {
+	p, fd := findFunc(dir, "", fn)
+	if fd == nil {
+		o.brokenDef(coqName, "function "+dir+":"+fn+" not found")
+		return
+	}
+	k := 0
+	var found ast.Expr
+	ast.Inspect(fd.Body, func(n ast.Node) bool {
+		if ce, ok := n.(*ast.CallExpr); ok && found == nil && printNode(p.fset, ce.Fun) == callee && len(ce.Args) > arg {
+			if k == nth {
+				found = ce.Args[arg]
+			}
+			k++
+		}
+		return true
+	})
+	if found == nil {
+		o.brokenDef(coqName, fmt.Sprintf("no call #%d of %s in %s", nth, callee, fn))
+		return
+	}
+	if c, ok := c11Const(found); ok {
+		o.f("Definition %s : Z := %d. (* %s:%s : argument %d of %s *)\n", coqName, c, dir, fn, arg, callee)
+		return
+	}
+	b, ok := c11LitBytes(found)
+	if !ok {
+		o.brokenDef(coqName, fmt.Sprintf("argument %d of %s in %s is not a literal: %s", arg, callee, fn, printNode(p.fset, found)))
+		return
+	}
+	o.f("Definition %s : list Z := %s. (* %s:%s : argument %d of %s = %q *)\n", coqName, bytesLit(b), dir, fn, arg, callee, string(b))
+}
+
+// package-level `var name = []byte("lit")`
+func (o *out) c11VarBytes(dir, name, coqName string) {
+	p := loadPkg(dir)
+	for _, f := range p.files {
+		for _, d := range f.Decls {
+			gd, ok := d.(*ast.GenDecl)
+			if !ok || gd.Tok != token.VAR {
+				continue
+			}
+			for _, sp := range gd.Specs {
+				vs := sp.(*ast.ValueSpec)
+				for i, nm := range vs.Names {
+					if nm.Name == name && i < len(vs.Values) {
+						if b, ok := c11LitBytes(vs.Values[i]); ok {
+							o.f("Definition %s : list Z := %s. (* %s.%s = %q *)\n", coqName, bytesLit(b), dir, name, string(b))
+							return
+						}
+					}
+				}
+			}
+		}
+	}
+	o.brokenDef(coqName, "package variable "+dir+"."+name+" with a literal value not found")
+}
+
+// bounds (lo, hi) of the nth slice expression of the function whose printed form is `text`; an omitted low bound is 0,
+// an omitted high bound is the leaf "len(<base>)"
+func (o *out) c11SliceBounds(fs funcSpec, text string, nth int) {
+	p, fd := findFunc(fs.dir, fs.recv, fs.name)
+	if fd == nil {
+		o.brokenDef(fs.coqName, "function "+fs.dir+":"+fs.name+" not found")
+		return
+	}
+	var found *ast.SliceExpr
+	k := 0
+	ast.Inspect(fd.Body, func(n ast.Node) bool {
+		if se, ok := n.(*ast.SliceExpr); ok && found == nil && strings.Join(strings.Fields(printNode(p.fset, se)), "") == strings.ReplaceAll(text, " ", "") {
+			if k == nth {
+				found = se
+			}
+			k++
+		}
+		return true
+	})
+	if found == nil {
+		o.brokenDef(fs.coqName, fmt.Sprintf("no slice expression #%d `%s` in %s", nth, text, fs.name))
+		return
+	}
+	t := o.newTr(p, fs)
+	lo, hi := "0", ""
+	if found.Low != nil {
+		lo = t.expr(found.Low)
+	}
+	if found.High != nil {
+		hi = t.expr(found.High)
+	} else {
+		hi = t.expr(&ast.CallExpr{Fun: ast.NewIdent("len"), Args: []ast.Expr{found.X}})
+	}
+	if t.err != nil {
+		o.brokenDef(fs.coqName, t.err.Error())
+		return
+	}
+	o.f("Definition %s %s : Z * Z := (%s, %s). (* %s:%s : bounds of %s *)\n", fs.coqName, fs.params, lo, hi, fs.dir, fs.name, text)
+}
+
+// the constant indexes applied to variable `base` in the function, in source order
+func (o *out) c11ConstIndexes(dir, fn, base, coqName string) {
+	p, fd := findFunc(dir, "", fn)
+	if fd == nil {
+		o.brokenDef(coqName, "function "+dir+":"+fn+" not found")
+		return
+	}
+	var xs []string
+	bad := ""
+	ast.Inspect(fd.Body, func(n ast.Node) bool {
+		if ie, ok := n.(*ast.IndexExpr); ok && printNode(p.fset, ie.X) == base {
+			if c, ok := c11Const(ie.Index); ok {
+				xs = append(xs, strconv.FormatInt(c, 10))
+			} else {
+				bad = printNode(p.fset, ie)
+			}
+		}
+		return true
+	})
+	if bad != "" {
+		o.brokenDef(coqName, "non-constant index "+bad)
+		return
+	}
+	o.f("Definition %s : list Z := [%s]. (* %s:%s : constant indexes into %s *)\n", coqName, strings.Join(xs, "; "), dir, fn, base)
+}
+
+// tagged switch whose tag contains marker: (case literal, first assigned selector of the body)
+func (o *out) c11SwitchLits(dir, fn, marker, coqName string, targets []string) {
+	type litT struct {
+		lit    []byte
+		target string
+	}
+	var lits []litT
+	p, fd := findFunc(dir, "", fn)
+	if fd == nil {
+		o.brokenDef(coqName, "function "+dir+":"+fn+" not found")
+		return
+	}
+	var items []string
+	ok := false
+	ast.Inspect(fd.Body, func(n ast.Node) bool {
+		sw, is := n.(*ast.SwitchStmt)
+		if !is || sw.Tag == nil || !strings.Contains(printNode(p.fset, sw.Tag), marker) || ok {
+			return true
+		}
+		ok = true
+		for _, c := range sw.Body.List {
+			cc := c.(*ast.CaseClause)
+			target := "?"
+			if len(cc.Body) == 1 {
+				if as, is := cc.Body[0].(*ast.AssignStmt); is && len(as.Lhs) == 1 && len(as.Rhs) == 1 {
+					target = printNode(p.fset, as.Lhs[0]) + "=" + printNode(p.fset, as.Rhs[0])
+				}
+			}
+			if cc.List == nil {
+				items = append(items, fmt.Sprintf("([], %s)", c11CoqStr("default:"+target)))
+			}
+			for _, e := range cc.List {
+				b, isLit := c11LitBytes(e)
+				if !isLit {
+					ok = false
+					return false
+				}
+				items = append(items, fmt.Sprintf("(%s, %s)", bytesLit(b), c11CoqStr(target)))
+				lits = append(lits, litT{b, target})
+			}
+		}
+		return false
+	})
+	if !ok {
+		o.brokenDef(coqName, "no switch on `"+marker+"` with literal cases in "+fn)
+		return
+	}
+	o.f("Definition %s : list (list Z * String.string) := [%s]%%string. (* %s:%s : switch %s *)\n", coqName, strings.Join(items, "; "), dir, fn, marker)
+	// the same table with the assignment target as its position in `targets` (99 = none of them), for the executable model
+	var coded []string
+	for _, it := range lits {
+		code := 99
+		for i, t := range targets {
+			if it.target == t {
+				code = i
+			}
+		}
+		coded = append(coded, fmt.Sprintf("(%s, %d)", bytesLit(it.lit), code))
+	}
+	o.f("Definition %s_coded : list (list Z * Z) := [%s]. (* targets: %s *)\n", coqName, strings.Join(coded, "; "), strings.Join(targets, " | "))
+}
+
+// capacity of the channel assigned to `name` by make(chan T[, n]) in the function (0 = unbuffered)
+func (o *out) c11ChanCap(dir, fn, name, coqName string) {
+	p, fd := findFunc(dir, "", fn)
+	if fd == nil {
+		o.brokenDef(coqName, "function "+dir+":"+fn+" not found")
+		return
+	}
+	capv := int64(-1)
+	ast.Inspect(fd.Body, func(n ast.Node) bool {
+		as, ok := n.(*ast.AssignStmt)
+		if !ok || len(as.Lhs) != 1 || len(as.Rhs) != 1 || printNode(p.fset, as.Lhs[0]) != name {
+			return true
+		}
+		ce, ok := as.Rhs[0].(*ast.CallExpr)
+		if !ok || printNode(p.fset, ce.Fun) != "make" || len(ce.Args) == 0 {
+			return true
+		}
+		if _, isChan := ce.Args[0].(*ast.ChanType); !isChan {
+			return true
+		}
+		capv = 0
+		if len(ce.Args) == 2 {
+			if c, ok := c11Const(ce.Args[1]); ok {
+				capv = c
+			} else {
+				capv = -2
+			}
+		}
+		return true
+	})
+	if capv < 0 {
+		o.brokenDef(coqName, fmt.Sprintf("no `%s = make(chan ...)` with a constant capacity in %s", name, fn))
+		return
+	}
+	o.f("Definition %s : Z := %d. (* %s:%s : capacity of channel %s *)\n", coqName, capv, dir, fn, name)
+}
+
+// condition of the case clause (tagless switch) whose printed condition contains marker
+func (o *out) c11CaseCond(fs funcSpec, marker string, nth int) {
+	p, fd := findFunc(fs.dir, fs.recv, fs.name)
+	if fd == nil {
+		o.brokenDef(fs.coqName, "function "+fs.dir+":"+fs.name+" not found")
+		return
+	}
+	var found ast.Expr
+	k := 0
+	ast.Inspect(fd.Body, func(n ast.Node) bool {
+		if cc, ok := n.(*ast.CaseClause); ok && found == nil && len(cc.List) == 1 && strings.Contains(printNode(p.fset, cc.List[0]), marker) {
+			if k == nth {
+				found = cc.List[0]
+			}
+			k++
+		}
+		return true
+	})
+	if found == nil {
+		o.brokenDef(fs.coqName, "no case condition containing `"+marker+"` in "+fs.name)
+		return
+	}
+	t := o.newTr(p, fs)
+	c := t.expr(found)
+	if t.err != nil {
+		o.brokenDef(fs.coqName, t.err.Error())
+		return
+	}
+	o.f("Definition %s %s : %s := %s. (* %s:%s : case %s *)\n", fs.coqName, fs.params, fs.retType, c, fs.dir, fs.name, printNode(p.fset, found))
+}
+
+// =====================================================================================================================
+// The hand-written text / line parsers on signing and verification paths (coq/C11/Text.v)
+func c11Text(o *out) {
+	o.f("\n(* ---------------------------------------------------------------- text / line parsers (C11/Text.v) *)\n")
+	o.f("Require Import Coq.Strings.String.\n")
+
+	// ---------------- lib/signdeb parseControl
+	sd := "lib/signdeb"
+	o.c11CallLit(sd, "parseControl", "strings.IndexAny", 1, 0, "c11_pc_ws")
+	o.c11CallLit(sd, "parseControl", "strings.Index", 1, 0, "c11_pc_colon")
+	o.c11CallLit(sd, "parseControl", "strings.Trim", 1, 0, "c11_pc_trim")
+	pcL := map[string]string{"i": "i", "j": "j", "len(line)": "line_len", "info.Package": "pkg", "info.Version": "ver"}
+	pcT := map[string]string{"info.Package": "str", "info.Version": "str"}
+	pc := func(coq, params, ret string) funcSpec {
+		return funcSpec{dir: sd, name: "parseControl", coqName: coq, params: params, retType: ret, leaves: pcL, types: pcT}
+	}
+	o.condOf(pc("c11_pc_skip", "(i j : Z)", "bool"), "if:j ")
+	o.c11SliceBounds(pc("c11_pc_key_bounds", "(j line_len : Z)", ""), "line[:j]", 0)
+	o.c11SliceBounds(pc("c11_pc_value_bounds", "(j line_len : Z)", ""), "line[j+1:]", 0)
+	o.c11SwitchLits(sd, "parseControl", "key", "c11_pc_fields", []string{"info.Package=value", "info.Version=value", "info.Arch=value"})
+	o.condOf(pc("c11_pc_missing", "(pkg ver : list Z)", "bool"), "if:info.Package")
+	o.callOrder(sd, "", "parseControl", "c11_pc_scanner_tuning", []string{"Buffer", "Split"})
+	o.c11SiteTable("c11_pc_sites", sd, "parseControl")
+	fingerprint(sd, "", "parseControl")
+
+	// ---------------- lib/signdeb checkSig
+	csL := map[string]string{"line": "line", "line[0]": "c0", "len(line)": "line_len"}
+	csT := map[string]string{"line": "str"}
+	cs := func(coq, params, ret string) funcSpec {
+		return funcSpec{dir: sd, name: "checkSig", coqName: coq, params: params, retType: ret, leaves: csL, types: csT}
+	}
+	o.condOf(cs("c11_cs_is_files", "(line : list Z)", "bool"), "if:line ==", 0)
+	o.condOf(cs("c11_cs_is_end", "(line : list Z)", "bool"), "if:line ==", 1)
+	o.condOf(cs("c11_cs_malformed", "(c0 line_len : Z)", "bool"), "if:line[0]")
+	o.c11SliceBounds(cs("c11_cs_rest_bounds", "(line_len : Z)", ""), "line[1:]", 0)
+	o.c11CallLit(sd, "checkSig", "strings.SplitN", 1, 0, "c11_cs_sep")
+	o.c11CallLit(sd, "checkSig", "strings.SplitN", 2, 0, "c11_cs_nparts")
+	o.condOf(funcSpec{dir: sd, name: "checkSig", coqName: "c11_cs_parts_bad", params: "(nparts : Z)", retType: "bool", leaves: map[string]string{"len(parts)": "nparts"}}, "if:len(parts)")
+	o.c11ConstIndexes(sd, "checkSig", "parts", "c11_cs_part_indexes")
+	o.c11SiteTable("c11_cs_sites", sd, "checkSig")
+	fingerprint(sd, "", "checkSig")
+	// signdeb.Sign: the ext slice of "control.tar*" names
+	o.c11SiteTable("c11_sign_sites", sd, "Sign")
+	o.c11CallLit(sd, "Sign", "strings.HasPrefix", 1, 1, "c11_sign_control_prefix")
+
+	// ---------------- lib/signjar manifest text layer
+	sj := "lib/signjar"
+	o.c11CallLit(sj, "splitManifest", "bytes.Index", 1, 0, "c11_sm_sep_crlf")
+	o.c11CallLit(sj, "splitManifest", "bytes.Index", 1, 1, "c11_sm_sep_lf")
+	smL := map[string]string{"i1": "i1", "i2": "i2", "len(manifest)": "mlen", "idx": "idx", "len(bytes.TrimSpace(section))": "trimmed_len"}
+	sm := func(coq, params, ret string) funcSpec {
+		return funcSpec{dir: sj, name: "splitManifest", coqName: coq, params: params, retType: ret, leaves: smL}
+	}
+	o.condOf(sm("c11_sm_more", "(mlen : Z)", "bool"), "for:len(manifest)")
+	o.c11CaseCond(sm("c11_sm_case_crlf", "(i1 i2 : Z)", "bool"), "i", 0)
+	o.c11CaseCond(sm("c11_sm_case_lf", "(i1 i2 : Z)", "bool"), "i", 1)
+	o.exprOfAssign(sm("c11_sm_idx_crlf", "(i1 : Z)", "Z"), "idx", 0)
+	o.exprOfAssign(sm("c11_sm_idx_lf", "(i2 : Z)", "Z"), "idx", 1)
+	o.exprOfAssign(sm("c11_sm_idx_rest", "(mlen : Z)", "Z"), "idx", 2)
+	o.c11SliceBounds(sm("c11_sm_section_bounds", "(idx mlen : Z)", ""), "manifest[:idx]", 0)
+	o.c11SliceBounds(sm("c11_sm_rest_bounds", "(idx mlen : Z)", ""), "manifest[idx:]", 0)
+	o.condOf(sm("c11_sm_empty_section", "(trimmed_len : Z)", "bool"), "if:TrimSpace")
+	o.c11SiteTable("c11_sm_sites", sj, "splitManifest")
+	psL := map[string]string{"len(line)": "line_len", "idx": "idx"}
+	pse := func(coq, params, ret string) funcSpec {
+		return funcSpec{dir: sj, name: "parseSection", coqName: coq, params: params, retType: ret, leaves: psL}
+	}
+	o.c11CallLit(sj, "parseSection", "bytes.ReplaceAll", 1, 0, "c11_ps_crlf")
+	o.c11CallLit(sj, "parseSection", "bytes.ReplaceAll", 2, 0, "c11_ps_crlf_to")
+	o.c11CallLit(sj, "parseSection", "bytes.ReplaceAll", 1, 1, "c11_ps_cont")
+	o.c11CallLit(sj, "parseSection", "bytes.ReplaceAll", 2, 1, "c11_ps_cont_to")
+	o.c11CallLit(sj, "parseSection", "bytes.Split", 1, 0, "c11_ps_line_sep")
+	o.c11CallLit(sj, "parseSection", "bytes.IndexRune", 1, 0, "c11_ps_colon")
+	o.condOf(pse("c11_ps_skip_line", "(line_len : Z)", "bool"), "if:len(line)")
+	o.condOf(pse("c11_ps_no_colon", "(idx : Z)", "bool"), "if:idx")
+	o.c11SliceBounds(pse("c11_ps_key_bounds", "(idx line_len : Z)", ""), "line[:idx]", 0)
+	o.c11SliceBounds(pse("c11_ps_value_bounds", "(idx line_len : Z)", ""), "line[idx+1:]", 0)
+	o.c11SiteTable("c11_ps_sites", sj, "parseSection")
+	pmL := map[string]string{"len(sections)": "nsections", "i": "i", "len(section)": "section_len", "name": "name"}
+	pm := func(coq, params, ret string) funcSpec {
+		return funcSpec{dir: sj, name: "parseManifest", coqName: coq, params: params, retType: ret, leaves: pmL, types: map[string]string{"name": "str"}}
+	}
+	o.condOf(pm("c11_pm_no_sections", "(nsections : Z)", "bool"), "if:len(sections)")
+	o.condOf(pm("c11_pm_skip_section", "(i section_len : Z)", "bool"), "if:len(section)")
+	o.condOf(pm("c11_pm_no_name", "(name : list Z)", "bool"), "if:name")
+	o.c11CallLit(sj, "parseManifest", "hdr.Get", 0, 0, "c11_pm_name_attr")
+	o.c11SiteTable("c11_pm_sites", sj, "parseManifest")
+	o.condOf(funcSpec{dir: sj, name: "DigestManifest", coqName: "c11_dm_empty", params: "(nsections : Z)", retType: "bool", leaves: pmL}, "if:len(sections)")
+	o.c11SiteTable("c11_dm_sites", sj, "DigestManifest")
+	o.callOrder(sj, "", "DigestManifest", "c11_dm_order", []string{"splitManifest", "hashSection", "parseSection"})
+	for _, fn := range []string{"splitManifest", "parseSection", "parseManifest", "DigestManifest"} {
+		fingerprint(sj, "", fn)
+	}
+
+	// ---------------- lib/pgptools: the line scanners that run in goroutines fed by an io.Pipe
+	pg := "lib/pgptools"
+	o.c11VarBytes(pg, "sigHeader", "c11_cl_sig_header")
+	o.c11VarBytes(pg, "crlf", "c11_cl_crlf")
+	clL := map[string]string{"copying": "copying", "bytes.Equal(line, sigHeader)": "is_hdr"}
+	clT := map[string]string{"copying": "bool", "bytes.Equal(line, sigHeader)": "bool"}
+	o.condOf(funcSpec{dir: pg, name: "tailClearSign", coqName: "c11_cl_tail_copy", params: "(copying is_hdr : bool)", retType: "bool", leaves: clL, types: clT}, "if:copying")
+	o.condOf(funcSpec{dir: pg, name: "headClearSign", coqName: "c11_cl_head_found", params: "(is_hdr : bool)", retType: "bool", leaves: clL, types: clT}, "if:bytes.Equal")
+	o.callOrder(pg, "", "tailClearSign", "c11_cl_tail_scanner_tuning", []string{"Buffer", "Split"})
+	o.callOrder(pg, "", "headClearSign", "c11_cl_head_scanner_tuning", []string{"Buffer", "Split"})
+	o.c11ChanCap(pg, "DetachClearSign", "done", "c11_cl_detach_done_cap")
+	o.c11ChanCap(pg, "MergeClearSign", "done", "c11_cl_merge_done_cap")
+	o.c11ChanCap(sd, "Sign", "errch", "c11_sign_errch_cap")
+	o.c11ChanCap(sd, "Sign", "infoch", "c11_sign_infoch_cap")
+	for _, fn := range []string{"tailClearSign", "headClearSign", "DetachClearSign", "MergeClearSign"} {
+		fingerprint(pg, "", fn)
+	}
+
+	// ---------------- goroutine inventory and the reviewed lists of unguarded sites
+	o.c11GoInventory("c11_goroutines", []string{"lib", "signers"})
+	o.c11Unguarded("c11_unguarded_signdeb", "lib/signdeb", nil)
+	o.c11Unguarded("c11_unguarded_pgptools", "lib/pgptools", nil)
+	o.c11Unguarded("c11_unguarded_signjar", "lib/signjar", []string{"manifest.go", "digest.go", "verify.go"})
+	o.c11Unguarded("c11_unguarded_appmanifest", "lib/appmanifest", nil)
+	o.c11Unguarded("c11_unguarded_signers_deb", "signers/deb", nil)
+	o.c11Unguarded("c11_unguarded_signers_pgp", "signers/pgp", nil)
+	o.c11Unguarded("c11_unguarded_xmldsig", "lib/xmldsig", []string{"verify.go"})
+	o.c11Unguarded("c11_unguarded_comdoc", "lib/comdoc", []string{"reader.go", "dirent.go", "msat.go", "sectors.go", "shortsector.go", "stream.go"})
+	o.c11Unguarded("c11_unguarded_csblob", "lib/fruit/csblob", []string{"superblob.go", "codedir.go", "reqparse.go", "verify.go", "csblob.go", "attrs.go", "asn1.go", "pagehash.go"})
+	o.c11Unguarded("c11_unguarded_xar", "lib/fruit/xar", []string{"xar.go", "verify.go"})
+	o.c11Unguarded("c11_unguarded_dmg", "lib/fruit/dmg", []string{"dmg.go", "verify.go"})
+	o.c11Unguarded("c11_unguarded_machos", "lib/fruit/machos", []string{"header.go", "verify.go"})
 }
